@@ -682,23 +682,69 @@ CLONE_ACCEPTED = {
     ('_all_masked', 'return array([all(mask) for mask in self._cutout_total_masks])',
      'return array([all(mask) for mask in self._mask_cutout_center])'): 'each class names its own total mask',
 }
-CLONE_SKIP = {'__str__': 'presentation only', '__repr__': 'presentation only'}
+CLONE_SKIP = {'__str__': 'presentation only', '__repr__': 'presentation only',
+              'to_table': 'presentation only: the table columns are decided by the SPEC rows of C08; the two builders need not be textual copies'}
 
 
-def _clone_stmts(f, ren=None):
+_THIN = {}
+
+
+def _thin_wrappers(repo):
+    """{name: FunctionDef} of private module-level functions that only forward to another call (`return g(...)`): a copy that
+    calls the wrapper and a copy that calls `g` directly are the same code."""
+    key = id(repo)
+    if key not in _THIN:
+        from ..axis import body_without_doc
+        found, dup = {}, set()
+        for f in repo.functions.values():
+            if f.cls is not None or '<locals>' in f.fullname or not f.name.startswith('_') or f.name.startswith('__'):
+                continue
+            body = body_without_doc(f.node)
+            if len(body) == 1 and isinstance(body[0], ast.Return) and isinstance(body[0].value, ast.Call):
+                if f.name in found:
+                    dup.add(f.name)
+                found[f.name] = f.node
+        _THIN.clear()
+        _THIN[key] = {k: v for k, v in found.items() if k not in dup}
+    return _THIN[key]
+
+
+def _expand_thin(st, thin):
+    from ..normalize import _single_expr
+    from ..expr import clone
+    if not any(isinstance(c, ast.Call) and isinstance(c.func, ast.Name) and c.func.id in thin for c in ast.walk(st)):
+        return st
+    st = clone(st)
+
+    class T(ast.NodeTransformer):
+        def visit_Call(self, c):
+            self.generic_visit(c)
+            if isinstance(c.func, ast.Name) and c.func.id in thin:
+                e = _single_expr(thin[c.func.id], c, False, True)
+                if e is not None:
+                    return e
+            return c
+    return ast.fix_missing_locations(T().visit(st))
+
+
+def _clone_stmts(f, ren=None, repo=None):
     from ..spec import nf_stmt
     from ..expr import nf, rename
     from ..axis import body_without_doc
     out = []
-    for st in ast.walk(ast.Module(body=body_without_doc(f.node), type_ignores=[])):
+    thin = _thin_wrappers(repo) if repo is not None else {}
+    for st0 in ast.walk(ast.Module(body=body_without_doc(f.node), type_ignores=[])):
+        st = st0
+        if thin and isinstance(st0, (ast.Assign, ast.AugAssign, ast.Return, ast.Expr)):
+            st = _expand_thin(st0, thin)
         node = rename(st, ren) if ren and isinstance(st, (ast.stmt,)) and isinstance(st, (ast.Assign, ast.AugAssign, ast.Return, ast.Expr, ast.If, ast.While)) else st
         try:
             if isinstance(node, (ast.Assign, ast.AugAssign, ast.Return, ast.Expr)):
-                out.append((nf_stmt(node), st))
+                out.append((nf_stmt(node), st0))
             elif isinstance(node, (ast.If, ast.While)):
-                out.append(('test ' + nf(node.test), st))
+                out.append(('test ' + nf(node.test), st0))
         except Exception:
-            out.append((ast.dump(node)[:200], st))
+            out.append((ast.dump(node)[:200], st0))
     return out
 
 
@@ -714,7 +760,7 @@ def run_clones(repo, res, cls_a='photutils.segmentation.catalog.SourceCatalog', 
         fa, fb = ma[name], mb[name]
         if fa.is_setter != fb.is_setter or fa.fullname == fb.fullname or name in CLONE_SKIP:
             continue
-        sa_, sb = _clone_stmts(fa, CLONE_RENAME), _clone_stmts(fb)
+        sa_, sb = _clone_stmts(fa, CLONE_RENAME, repo), _clone_stmts(fb, None, repo)
         ta, tb = [s for s, _ in sa_], [s for s, _ in sb]
         if not ta or not tb:
             continue
